@@ -467,10 +467,13 @@ class Discovery (EventMixin):
     return EventHalt # Probably nobody else needs this event
 
   def _delete_links (self, links):
-    for link in links:
-      self.raiseEventNoErrors(LinkEvent, False, link)
+    # Remove the links before announcing their removal, so that listeners
+    # which recompute things from the adjacency (e.g., the spanning tree)
+    # don't still see them.
     for link in links:
       self.adjacency.pop(link, None)
+    for link in links:
+      self.raiseEventNoErrors(LinkEvent, False, link)
 
   def is_edge_port (self, dpid, port):
     """
